@@ -472,6 +472,11 @@ def run(ctx):
             runs.append((inp, run_stress(binary, inp, wd, "stress%d" % i)))
             if stress_verdict(runs[-1][1], inp):
                 break
+        else:
+            # a node whose ONLY endpoint keeps connecting and disconnecting (its endpoint map is empty half of the time) while
+            # status readers hold and walk snapshots of it: a snapshot must never share the live map
+            inp = dict(stress_input(ctx, ctx["seed"] + 5, False), endpoints=1, duration_ms=3000, membership=False, conn_workers=2, max_hold=1)
+            runs.append((inp, run_stress(binary, inp, wd, "stress-drain")))
         sres["runs"] = runs
     th = threading.Thread(target=stress_thread)
     th.start()
